@@ -53,3 +53,41 @@ fn k_wo_valid_step() {
     kani::cover!(ok && ret == WORegisterRet::WriteFail);
     kani::cover!(!ok);
 }
+
+// ---- is_valid_history (default trait method) accepts exactly the invoke traces: bounded stand-in,
+// histories of up to 3 steps over Register<u8> with values < 2
+use stateright::semantics::register::*;
+
+fn any_reg_op() -> RegisterOp<u8> {
+    if kani::any() { let v: u8 = kani::any(); kani::assume(v < 2); RegisterOp::Write(v) } else { RegisterOp::Read }
+}
+fn any_reg_ret() -> RegisterRet<u8> {
+    if kani::any() { RegisterRet::WriteOk } else { let v: u8 = kani::any(); kani::assume(v < 2); RegisterRet::ReadOk(v) }
+}
+
+#[kani::proof]
+#[kani::unwind(6)]
+fn k_valid_history_register() {
+    let n: usize = kani::any();
+    kani::assume(n <= 3);
+    let ops = [any_reg_op(), any_reg_op(), any_reg_op()];
+    let rets = [any_reg_ret(), any_reg_ret(), any_reg_ret()];
+    let init: u8 = kani::any();
+    kani::assume(init < 2);
+    let mut hist: Vec<(RegisterOp<u8>, RegisterRet<u8>)> = Vec::new();
+    let mut i = 0;
+    while i < n { hist.push((ops[i].clone(), rets[i].clone())); i += 1; }
+    let mut obj = Register(init);
+    let got = obj.is_valid_history(hist);
+    // reference: replay invoke from the initial object
+    let mut r = Register(init);
+    let mut want = true;
+    let mut i = 0;
+    while i < n {
+        if want && r.invoke(&ops[i]) != rets[i] { want = false; }
+        i += 1;
+    }
+    assert!(got == want);
+    kani::cover!(n == 3 && got);
+    kani::cover!(n == 3 && !got);
+}
